@@ -251,7 +251,7 @@ def run(tier):
         h, mode, tname, insub, ct = jobs[f["run"]]
         V.violation(f"transparent:{mode}:{stream.shape(h)[:200]}", f"output with OSC 8 sequences removed differs from the run without "
                     f"--hyperlinks at row {f['at']} (mode {mode}, [{stream.shape(h)[:160]}])",
-                    {"history": h, "mode": mode, "run": res[f["run"]][0].to_json()})
+                    {"history": h, "mode": mode, "run": res[f["run"]][0].to_json(), "also": [res[f["run"]][1].to_json()]})
     seen = set()
     for f in f_term:
         if f["run"] >= n_main:
